@@ -332,7 +332,10 @@ structure State (κ α : Type) where
   heap : Heap κ α
   pool : List MeshRep
 
-/-- replace the map of one kind -/
+/-- replace the map of one kind.  NOTE: `List.set` is a silent no-op when `kind ≥ maps.length`; every `MeshRep` the
+    tie builds has exactly four kinds (positions 0..3 = v1Data..v4Data) and the harness only sends `kind < 4`, so the
+    no-op branch is not reachable from the correspondence; the theorems hold for it as well (an operation that then
+    returns the receiver's maps unchanged still writes nothing). -/
 def setKind (maps : List (Option Nat)) (kind : Nat) (id : Nat) : List (Option Nat) := maps.set kind (some id)
 
 section step
